@@ -507,6 +507,8 @@ class Engine:
             return v
         if c == '()':
             return UNIT
+        if re.match(r'^Option::<.*>::None$', c):
+            return ['enum', bv(0, 64), []]
         if c.startswith('"') or c.startswith('b"'):
             return Opaque('str')
         if c.startswith('ZeroSized'):
